@@ -7,7 +7,7 @@ import extract
 from rustlex import norm
 
 ROOT = os.path.dirname(os.path.dirname(os.path.abspath(__file__)))
-WORK = os.path.join(ROOT, ".work")
+WORK = os.environ.get("VERIF_WORK") or os.path.join(ROOT, ".work")
 CACHE = os.path.join(ROOT, ".cache", "verus")
 PRELUDES = [os.path.join(ROOT, "verus", "prelude.rs"), os.path.join(ROOT, "verus", "shims.rs")]
 RLIMIT = "30"
